@@ -424,6 +424,10 @@ def run(tier):
         ("z/c.txt.gz", gzip.compress(plain_gz, mtime=0), ("gz", plain_gz)),
         ("z/b.bin.gz", gzip.compress(plain_bin, mtime=0), ("gz", plain_bin)),
         ("z/backup.tar.gz", gzip.compress(plain_tar, mtime=0), ("gz", plain_tar)),
+        # several gzip members in one file (cat a.gz b.gz): the decompressor sends all of them
+        ("z/multi.txt.gz", gzip.compress(plain_gz, mtime=0) + gzip.compress(b"tail member\n" * 40, mtime=0),
+         ("gz", plain_gz + b"tail member\n" * 40)),
+        ("z/emptylast.txt.gz", gzip.compress(plain_gz[:2000], mtime=0) + gzip.compress(b"", mtime=0), ("gz", plain_gz[:2000])),
         ("z/t.html.tal", b'<html><body tal:content="selector">x</body></html>\n', ("tal", None)),
         ("z/u.txt.tal", b'line <b tal:replace="selector">x</b>\n', ("tal", None)),
     ]
